@@ -14,7 +14,17 @@ from itertools import chain
 import operator as op
 import re
 import string
-from typing import Any, Callable, DefaultDict, Dict, Iterable, List, Type, Union
+from typing import (
+    Any,
+    Callable,
+    Container,
+    DefaultDict,
+    Dict,
+    Iterable,
+    List,
+    Type,
+    Union,
+)
 import unicodedata
 
 from statham.schema.constants import (
@@ -305,17 +315,15 @@ def _parse_object(
         raise SchemaParseError.missing_title(schema)
     title = _title_format(title)
     properties = schema.get("properties", {})
-    properties.update(
-        {
-            _parse_attribute_name(key): _Property(
+    declared = {prop.source for prop in properties.values()}
+    for key in schema.get("required", []):
+        if key not in declared:
+            declared.add(key)
+            properties[_unique_attribute_name(key, properties)] = _Property(
                 _implicit_property_element(key, schema),
                 required=True,
                 source=key,
             )
-            for key in schema.get("required", [])
-            if _parse_attribute_name(key) not in properties
-        }
-    )
     class_dict = ObjectClassDict()
     for key, value in properties.items():
         class_dict[key] = value
@@ -361,23 +369,26 @@ def _parse_properties(
     state = state or _ParseState()
     required = set(schema.get("required", []))
     properties = schema.get("properties", {})
-    return {
-        **{
-            _parse_attribute_name(key): _Property(
+    parsed: Dict[str, _Property] = {}
+    for key, value in properties.items():
+        # Ignore malformed values.
+        if isinstance(value, (dict, bool)):
+            value = _Property(
                 parse_element(value, state),
                 required=key in required,
                 source=key,
             )
-            for key, value in properties.items()
-            # Ignore malformed values.
-            if isinstance(value, (dict, bool))
-        },
-        **{
-            _parse_attribute_name(key): prop
-            for key, prop in properties.items()
-            if isinstance(prop, _Property)
-        },
-    }
+        if isinstance(value, _Property):
+            parsed[_unique_attribute_name(key, parsed)] = value
+    return parsed
+
+
+def _unique_attribute_name(key: str, taken: Container[str]) -> str:
+    """Get an attribute name for a property, distinct from its siblings'."""
+    name = _parse_attribute_name(key)
+    while name in taken:
+        name += "_"
+    return name
 
 
 def _parse_attribute_name(name: str) -> str:
